@@ -99,7 +99,25 @@ class ASTPrinter:
         return "$%s" % node.name.value
 
     def print_document(self, node: _ast.Document) -> str:
-        return _join(map(self, node.definitions), "\n\n") + "\n"
+        parts = []
+        previous = None  # type: Optional[_ast.Definition]
+        for definition in node.definitions:
+            text = self(definition)
+            # Right after a type system definition the `{ ... }` shorthand
+            # would be read back as the body of that definition.
+            if (
+                isinstance(definition, _ast.OperationDefinition)
+                and text.startswith("{")
+                and previous is not None
+                and not isinstance(
+                    previous,
+                    (_ast.OperationDefinition, _ast.FragmentDefinition),
+                )
+            ):
+                text = "query " + text
+            parts.append(text)
+            previous = definition
+        return _join(parts, "\n\n") + "\n"
 
     def print_operation_definition(self, node: _ast.OperationDefinition) -> str:
         op = node.operation
